@@ -102,7 +102,81 @@ fn hostile(s: &mut S, known_batch: &Option<Digest>, known_block: &Option<Digest>
     let corpus = corpus(s);
     let rng = &mut s.rng;
     let any_port = |rng: &mut StdRng| [SVC_CONSENSUS, SVC_MEMPOOL, SVC_TX][rng.gen_range(0, 3)];
-    match rng.gen_range(0, 16) {
+    match rng.gen_range(0, 17) {
+        15 => {
+            // Structurally valid messages for the node's current round whose signature bytes are
+            // malformed in ways an honest signer never produces: all-ones, non-canonical top bits,
+            // scalar >= group order, identity / random point. Decoding and verification must reject
+            // them, not panic.
+            let a = s.p.puppets()[0];
+            let good = s.p.mk_vote(a, &s.tip.digest(), s.cur);
+            let mut raw: [u8; 64] = [0u8; 64];
+            raw.copy_from_slice(&bincode::serialize(&good.signature).unwrap()[..64]);
+            let pat = s.rng.gen_range(0, 7);
+            match pat {
+                0 => raw = [0xffu8; 64],
+                1 => raw[63] |= 0x80,
+                2 => raw[63] |= 0x40,
+                3 => raw[63] |= 0x20,
+                4 => {
+                    let l: [u8; 32] = [0xed, 0xd3, 0xf5, 0x5c, 0x1a, 0x63, 0x12, 0x58, 0xd6, 0x9c, 0xf7, 0xa2, 0xde, 0xf9, 0xde, 0x14, 0, 0, 0, 0, 0, 0, 0, 0, 0, 0, 0, 0, 0, 0, 0, 0x10];
+                    raw[32..].copy_from_slice(&l);
+                }
+                5 => {
+                    raw = [0u8; 64];
+                    raw[0] = 1;
+                }
+                _ => {
+                    for b in raw.iter_mut() {
+                        *b = s.rng.gen();
+                    }
+                }
+            }
+            let sig: Signature = bincode::deserialize(&raw).unwrap();
+            let cur = s.cur;
+            let (m, k): (ConsensusMessage, &str) = match s.rng.gen_range(0, 5) {
+                0 => {
+                    let mut v = s.p.mk_vote(a, &s.tip.digest(), cur);
+                    v.signature = sig;
+                    (ConsensusMessage::Vote(v), "vote")
+                }
+                1 => {
+                    let mut t = s.p.mk_timeout(a, cur, s.tip_qc.clone());
+                    t.signature = sig;
+                    (ConsensusMessage::Timeout(t), "timeout")
+                }
+                2 => {
+                    let entries: Vec<(usize, u64)> = s.p.puppets().iter().map(|i| (*i, 0)).collect();
+                    let mut tc = s.p.mk_tc(cur, &entries);
+                    let k = s.rng.gen_range(0, tc.votes.len());
+                    tc.votes[k].1 = sig;
+                    (ConsensusMessage::TC(tc), "tc-member")
+                }
+                3 => {
+                    let mut qc = s.tip_qc.clone();
+                    if !qc.votes.is_empty() {
+                        let k = s.rng.gen_range(0, qc.votes.len());
+                        qc.votes[k].1 = sig;
+                    }
+                    (ConsensusMessage::Timeout(s.p.mk_timeout(a, cur, qc)), "timeout-embedded-qc-member")
+                }
+                _ => {
+                    let leader = s.p.leader(cur);
+                    let author = if leader == s.p.r { a } else { leader };
+                    let mut b = Block { qc: s.tip_qc.clone(), tc: None, author: s.p.name(author), round: cur, payload: vec![], signature: Signature::default() };
+                    if s.rng.gen_bool(0.5) && !b.qc.votes.is_empty() {
+                        let k = s.rng.gen_range(0, b.qc.votes.len());
+                        b.qc.votes[k].1 = sig;
+                        b.signature = s.p.topo.sign(author, &b.digest());
+                        (ConsensusMessage::Propose(b), "block-embedded-qc-member")
+                    } else {
+                        b.signature = sig;
+                        (ConsensusMessage::Propose(b), "block")
+                    }
+                }
+            };
+            Hostile { svc: SVC_CONSENSUS, framed: true, bytes: bincode::serialize(&m).unwrap(), class: format!("signature-bytes/p{}/{}", pat, k) }
+        }
         0 => {
             let len = [0usize, 1, 2, 3, 4, 7, 8, 9, 31, 32, 33, 64, 100, 1000, 65_536][rng.gen_range(0, 15)];
             Hostile { svc: any_port(rng), framed: true, bytes: rand_bytes(rng, len), class: "random-bytes".into() }
